@@ -5,7 +5,7 @@ import Chrono.Proofs.TextFormsL
 import Chrono.Props.C14
 namespace Chrono.Proofs.TextForms
 open Chrono Chrono.M Chrono.M.Scan Chrono.M.Format Chrono.M.TextForms
-open Chrono.Proofs Chrono.Proofs.RenderScan Chrono.Spec Chrono.Spec.Text Chrono.Extracted
+open Chrono.Proofs Chrono.Proofs.RenderScan Chrono.Spec Chrono.Spec.Text Chrono.Spec.Fields Chrono.Proofs.ParsedRes Chrono.Extracted
 
 /-- an item list without the two whole-format items goes through `parseItemBase` only -/
 theorem parse_internal_base (items : List Item)
